@@ -10,7 +10,9 @@ TRUSTED_BASE = [
     "extraction (ExtrOcamlBasic only), ocaml/driver*.ml, harness",
 ]
 ASSUMPTIONS = ["source-to-model tie is differential testing"]
-RULE = ("every string of length <= L over the delimiter alphabet ': / ? # [ ] @ % a 1 .' (L=4 quick, 5 thorough) "
+RULE = ("derived URLs: 10 bases x 31 operations (query operations, modifiers, path operations), with every accessor of the receiver read "
+        "first / not read / chained, predicate c07_derived_pred (re-composition, authority split, raw_path_qs); " +
+        "every string of length <= L over the delimiter alphabet ': / ? # [ ] @ % a 1 .' (L=4 quick, 5 thorough) "
         "through URL(s) and URL(s, encoded=True), all accessors observed; structured and soup URLs; distinct = "
         "distinct (mode, string); non-trivial = the string contains at least one delimiter")
 
@@ -47,3 +49,26 @@ def run(ctx):
                                  lambda m, k=k, off=off: {"backend": k, "input": strs[m], "input_codepoints": [ord(c) for c in strs[m]],
                                                           "mode": "encoded=True" if off else "auto", "impl": outs[k][2 * m + off]},
                                  kf=core.kf_list(ctx), arglines=args)
+
+    # ... "and for every URL the raw accessors re-compose to str(url)": URLs produced by operations as well, each after
+    # every accessor of the receiver has been read (so that whatever the receiver has computed could be handed over)
+    import suites
+    DBASES = ["http://u:p@example.com:8080/search/a.b?q=1&r=2#top", "http://example.com:80/p?q=1", "https://h:443", "//h/x?k=v", "/rel/p?a=1&a=2#f",
+              "http://[::1]:81/a/b?x=y", "foo://user@h:0/p/q.tar.gz?z#", "http://h/?a=1&b=2&a=3", "x:/a/b?c", "http://u@h"]
+    DOPS = [["op", "with_query", "q=2"], ["op", "with_query", ["map", ["k", "v w"]]], ["op", "with_query", None], ["op", "extend_query", "e=5"],
+            ["op", "extend_query", ["map", ["a", "9"]]], ["op", "update_query", "a=7&z=8"], ["op", "update_query", ["map", ["q", "3"]]],
+            ["op", "without_query_params", ["a"]], ["op", "without_query_params", ["q", "r"]], ["op", "with_fragment", "g h"], ["op", "with_fragment", None],
+            ["op", "with_path", "/new/p", False, False, False], ["op", "with_path", "/kept", False, True, True], ["op", "with_name", "n.txt", False, False],
+            ["op", "with_name", "m", True, True], ["op", "with_suffix", ".bak", False, False], ["op", "with_suffix", ".z", True, True],
+            ["op", "with_scheme", "https"], ["op", "with_scheme", "http"], ["op", "with_port", 443], ["op", "with_port", None], ["op", "with_port", 80],
+            ["op", "with_user", "w"], ["op", "with_user", None], ["op", "with_password", "s"], ["op", "with_host", "other.org"], ["op", "div", "child"],
+            ["op", "joinpath", ["a", "b"], False], ["op", "parent"], ["op", "origin"], ["op", "relative"]]
+    progs = []
+    for b in DBASES:
+        for op in DOPS:
+            progs.append([["push", ["url", b]], ["touch"], op])
+            progs.append([["push", ["url", b]], op])
+            progs.append([["push", ["url", b]], ["touch"], op, ["touch"], DOPS[(DOPS.index(op) + 5) % len(DOPS)]])
+    douts = suites.observe(ctx, "C07-derived", progs, profile=0, classes={"bases": len(DBASES), "operations": len(DOPS)})
+    suites.apply_pred(ctx, "C07-derived", "c07_derived_pred", douts, lambda k, i: douts[k][i],
+                      lambda k, i: {"program": progs[i], "impl": douts[k][i][:1200]})
